@@ -833,6 +833,13 @@ pub fn generate(op: &str, rng: &mut Rng, budget: u64, f: &mut dyn FnMut(Vec<Stri
                     continue;
                 }
                 let mut l: Vec<u64> = cells.iter().map(|c| enc(*c)).collect();
+                if op == "compact_cover" && rng.below(2) == 0 && !l.is_empty() {
+                    // duplicates at non-adjacent positions
+                    for _ in 0..(1 + rng.below(3)) {
+                        let x = l[rng.below(l.len() as u64) as usize];
+                        l.push(x);
+                    }
+                }
                 shuffle(&mut l, rng);
                 if !f(vec![flist(&l)]) {
                     return;
